@@ -9,6 +9,11 @@ REPO=${VERIF_REPO:-/repo}
 gen_mod() { # dir modname
   local dir=$1 name=$2
   mkdir -p "$dir"
+  local modfile="$dir/go.mod" sumfile="$dir/go.sum"
+  if [ -n "${VERIF_MODOUT:-}" ]; then # alternative go.mod (driver: VERIF_REPO != /repo), used with -modfile
+    mkdir -p "$VERIF_MODOUT/$dir"
+    modfile="$VERIF_MODOUT/$dir/go.mod"; sumfile="$VERIF_MODOUT/$dir/go.sum"
+  fi
   {
     echo "module $name"
     echo
@@ -29,15 +34,16 @@ gen_mod() { # dir modname
       echo "	$m => $(dirname "$f")"
     done
     echo ")"
-  } > "$dir/go.mod"
+  } > "$modfile"
   cat "$REPO"/cmd/otelcorecol/go.sum "$REPO"/internal/e2e/go.sum "$REPO"/service/go.sum "$REPO"/otelcol/go.sum \
-      "$REPO"/pdata/go.sum "$REPO"/exporter/otlphttpexporter/go.sum 2>/dev/null | sort -u > "$dir/go.sum"
+      "$REPO"/pdata/go.sum "$REPO"/exporter/otlphttpexporter/go.sum 2>/dev/null | sort -u > "$sumfile"
 }
 
 gen_mod harness go.opentelemetry.io/collector/verifharness
 gen_mod harness-service go.opentelemetry.io/collector/service/verifharness
 
 mkdir -p .build evidence replays
+[ -n "${VERIF_MODOUT:-}" ] && exit 0
 # warm the cache: compile every test package once (errors here are reported but
 # a single package failing must not prevent the others from being usable)
 rc=0
